@@ -7,6 +7,7 @@ import (
 	"fmt"
 	"go/constant"
 	"go/token"
+	"sort"
 	"strings"
 
 	"golang.org/x/tools/go/ssa"
@@ -28,7 +29,123 @@ func runLOC(c *Ctx) (obls []Obl) {
 	locOrder(c, a)
 	locProbe(c, a)
 	locSkip(c, a)
+	locRootSuffix(c, a)
 	return
+}
+
+// locRootSuffix: a remote root is derived from a probe isRootedIn(local +
+// dir, parts) only when the remote prefix the probe returns ends with the
+// same dir ("/src", "/pkg/mod"), and the root recorded is that prefix
+// without the dir. isRootedIn returns the prefix of the first tail of the
+// path that exists below the probed directory: without the suffix test any
+// file whose tail happens to exist there (errors/errors.go) installs a bogus
+// root that explains none of the frames it is meant for.
+func locRootSuffix(c *Ctx, a *flAgg) {
+	const rule = "LOC-root-suffix"
+	fn := c.MustFunc(a.obls, rule, "stack", "Snapshot", "findRoots")
+	if fn == nil {
+		return
+	}
+	exprHome = fn.Pkg.Pkg
+	loops := outermostLoops(naturalLoops(fn))
+	if len(loops) != 1 {
+		a.und(rule, "findRoots", "the file loop was not found", fn.Pos())
+		return
+	}
+	l := loops[0]
+	seg := &SPE{Fn: fn, Start: l.Header, MaxVisits: 2}
+	seg.Stop = func(from, to *ssa.BasicBlock) bool { return (to == l.Header && l.Body[from]) || (l.Body[from] && !l.Body[to]) }
+	seg.Explore()
+	type verdict struct {
+		ok  bool
+		why string
+		pos token.Pos
+	}
+	res := map[string]*verdict{}
+	note := func(key string, ok bool, why string, pos token.Pos) {
+		v := res[key]
+		if v == nil {
+			v = &verdict{ok: true, pos: pos}
+			res[key] = v
+		}
+		if !ok && v.ok {
+			v.ok, v.why, v.pos = false, why, pos
+		}
+	}
+	for _, p := range seg.Paths {
+		for _, ev := range p.Events {
+			var root *Expr
+			var what string
+			switch {
+			case ev.Kind == EvStore && strings.HasSuffix(ev.Addr.String(), ".RemoteGOROOT"):
+				root, what = ev.Val, "RemoteGOROOT"
+			case ev.Kind == EvMapUpd && strings.Contains(ev.Addr.String(), "RemoteGOPATHs"):
+				root, what = ev.Key, "RemoteGOPATHs"
+			default:
+				continue
+			}
+			if _, isC := constStr(root); isC {
+				continue
+			}
+			var probe *Expr
+			root.walk(func(e *Expr) bool {
+				if probe == nil && e.calleeIs(stackPkg, "isRootedIn") {
+					probe = e
+				}
+				return probe == nil
+			})
+			if probe == nil || len(probe.Args) < 3 {
+				note(what+"/derived", false, "a root is recorded that is not the result of a disk probe: "+root.String(), ev.Pos)
+				continue
+			}
+			dir := probe.Args[1]
+			suf := ""
+			if dir.Op == OpBin && dir.Tok == token.ADD {
+				suf, _ = constStr(dir.Args[1])
+			}
+			if suf == "" {
+				note(what+"/probe", false, "the probed directory is not <local root> + constant directory: "+dir.String(), ev.Pos)
+				continue
+			}
+			key := what + suf
+			guarded := false
+			for _, lt := range p.Lits {
+				at := lt.Atom
+				if lt.Pol && at.calleeIs("strings", "HasSuffix") && len(at.Args) == 3 && at.Args[1].String() == probe.String() {
+					if s2, ok := constStr(at.Args[2]); ok && s2 == suf {
+						guarded = true
+					}
+				}
+			}
+			if !guarded {
+				note(key, false, "the prefix returned by the probe of <local>"+suf+" is recorded as a root without testing that it ends with "+suf+" ("+litsString(p)+")", ev.Pos)
+				continue
+			}
+			// the root is the prefix without the directory
+			want := fmt.Sprintf("%s[:(len(%s) - %d)]", probe.String(), probe.String(), len(suf))
+			if got := root.String(); got != want {
+				note(key, false, "the recorded root is "+got+", not the probe result without its "+suf+" suffix", ev.Pos)
+				continue
+			}
+			note(key, true, "", ev.Pos)
+		}
+	}
+	if len(res) == 0 {
+		a.und(rule, "findRoots", "no root is recorded in the file loop", fn.Pos())
+		return
+	}
+	keys := make([]string, 0, len(res))
+	for k := range res {
+		keys = append(keys, k)
+	}
+	sort.Strings(keys)
+	for _, k := range keys {
+		if v := res[k]; v.ok {
+			a.ok(rule, k, "recorded only when the probe's remote prefix ends with the probed directory, and without it", v.pos)
+		} else {
+			a.bad(rule, k, v.why+": a file whose tail merely coincides with a file below the probed directory installs a root that explains none of the frames it stands for, and the real root is never probed", v.pos)
+		}
+	}
 }
 
 // locOrder: roots are tried innermost first: the keys come in descending
@@ -147,7 +264,53 @@ func locProbe(c *Ctx, a *flAgg) {
 			cands = append(cands, b.Parent())
 		}
 	}
+	// the loop that ranges over the local GOPATHs (the field, or a []string
+	// parameter of a helper the loop was moved to), if it can be told that way
+	rangesGopaths := func(l *loopInfo) bool {
+		for _, in := range l.Header.Instrs {
+			bo, ok := in.(*ssa.BinOp)
+			if !ok || bo.Op != token.LSS {
+				continue
+			}
+			lc, ok := bo.Y.(*ssa.Call)
+			if !ok || bnCallee(lc) != "builtin.len" {
+				continue
+			}
+			switch x := lc.Call.Args[0].(type) {
+			case *ssa.UnOp:
+				if fa, ok := x.X.(*ssa.FieldAddr); ok && addrLast(fa) == "LocalGOPATHs" {
+					return true
+				}
+			case *ssa.Parameter:
+				if x.Parent() != fn && x.Type().String() == "[]string" {
+					return true
+				}
+			}
+		}
+		return false
+	}
 	for _, cf := range cands {
+		for _, l := range naturalLoops(cf) {
+			calls := false
+			for b := range l.Body {
+				for _, in := range b.Instrs {
+					if call, ok := in.(*ssa.Call); ok {
+						if cal := call.Call.StaticCallee(); cal != nil && cal.Name() == "isRootedIn" {
+							calls = true
+						}
+					}
+				}
+			}
+			if calls && rangesGopaths(l) {
+				inner = l
+				fn = cf
+			}
+		}
+	}
+	for _, cf := range cands {
+		if inner != nil {
+			break
+		}
 		for _, l := range naturalLoops(cf) {
 			n := 0
 			for b := range l.Body {
@@ -169,7 +332,7 @@ func locProbe(c *Ctx, a *flAgg) {
 		a.und("LOC-probe", "findRoots/gopath-loop", "the loop probing the local GOPATHs was not found", fn.Pos())
 		return
 	}
-	seg := &SPE{Fn: fn, Start: inner.Header, MaxVisits: 2}
+	seg := &SPE{Fn: fn, Start: inner.Header, MaxVisits: 4}
 	seg.Stop = func(from, to *ssa.BasicBlock) bool {
 		return (to == inner.Header && inner.Body[from]) || (inner.Body[from] && !inner.Body[to])
 	}
@@ -490,6 +653,16 @@ func locSeparators(c *Ctx, a *flAgg) {
 			nTrue++
 			rootEq, sepOK := false, false
 			for _, lt := range p.Lits {
+				// the same two tests written with strings.HasPrefix
+				if at := lt.Atom; lt.Pol && at.calleeIs("strings", "HasPrefix") && len(at.Args) == 3 {
+					subj, pre := at.Args[1], at.Args[2]
+					if subj.Op == OpParam && !pre.isConst() {
+						rootEq = true // p begins with the root
+					}
+					if s, ok := constStr(pre); ok && strings.HasPrefix(s, "/") && subj.Op == OpSlice && subj.Args[0].Op == OpParam && subj.Args[1] != nil && strings.HasPrefix(subj.Args[1].String(), "len(") {
+						sepOK = true // what follows the root begins with a separator
+					}
+				}
 				if !lt.Pol || lt.Atom.Op != OpBin || lt.Atom.Tok != token.EQL {
 					continue
 				}
@@ -686,17 +859,24 @@ func locConsts(c *Ctx, a *flAgg) {
 	fr := collect(c.L.Func("stack", "Snapshot", "findRoots"))
 	hs := collect(c.L.Func("stack", "", "hasSrcPrefix"))
 	ul := collect(c.L.Func("stack", "Call", "updateLocations"))
-	ok := fr["/src"] && fr["/pkg/mod"] && hs["/src/"] && hs["/pkg/mod/"] && ul["/src/"] && ul["/pkg/mod/"] && ul["src"] && ul["pkg/mod"]
+	// the directory names, whatever separators are attached to the constant
+	// (where the separators must be is LOC-sep / LOC-branch / LOC-root-suffix)
+	ok := true
 	extra := []string{}
 	for _, m := range []map[string]bool{fr, hs, ul} {
+		names := map[string]bool{}
 		for s := range m {
-			switch s {
-			case "/src", "/pkg/mod", "/src/", "/pkg/mod/", "src", "pkg/mod":
-			default:
+			n := strings.Trim(s, "/")
+			names[n] = true
+			if n != "src" && n != "pkg/mod" {
 				extra = append(extra, s)
 			}
 		}
+		if !names["src"] || !names["pkg/mod"] {
+			ok = false
+		}
 	}
+	sort.Strings(extra)
 	if ok && len(extra) == 0 {
 		a.ok("LOC-consts", "src+pkg/mod", "findRoots, hasSrcPrefix and updateLocations agree on the directory names /src and /pkg/mod", token.NoPos)
 	} else {
